@@ -486,7 +486,7 @@ impl Language for Swift {
                 w,
                 r#"
 	private enum ContainerCodingKeys: String, CodingKey {{
-		case {tag_key}, {content_key}
+		case {tag_case}, {content_case}
 	}}
 
 	public init(from decoder: Decoder) throws {{
@@ -504,7 +504,9 @@ impl Language for Swift {
 		}}
 	}}"#,
                 tag_key = tag_key,
-                content_key = content_key,
+                // a key such as `case` or `default` must be escaped where it is declared
+                tag_case = swift_keyword_aware_rename(tag_key.as_str()),
+                content_case = swift_keyword_aware_rename(content_key.as_str()),
                 type_name = enum_name,
                 decoding_switch = coding_keys_info.decoding_cases.join(""),
                 encoding_switch = coding_keys_info.encoding_cases.join(""),
